@@ -145,24 +145,31 @@ Proof.
     exists n. eapply eval_frame; eauto.
 Qed.
 
+Lemma keep_pos_inv : forall e st e' st' bs, keep_pos e st = Some (e', st', bs) -> e' = e /\ bs = [].
+Proof.
+  intros e st e' st' bs H. unfold keep_pos in H.
+  destruct e; try (destruct (has_ctor _); [discriminate|]; inversion H; auto).
+  destruct (existsb has_ctor args); [discriminate|]. inversion H; auto.
+Qed.
+
 Lemma lift_other_eval : forall e n s mu C v mu1 T,
   eval N P n s mu C e = ROk (v, mu1) -> LInv s T -> XE N P T mu C e (v, mu1).
 Proof. intros e n s mu C v mu1 T He (HR & _). exists n. eapply eval_frame; eauto. Qed.
 
-Definition LE (n : nat) : Prop := forall st sg st' sg' bs s mu C o mu' T,
-  lift_stmt (ctor_ok_N N) (ctor_ok_real N) false st sg = Some (st', sg', bs) -> incl bs BS ->
+Definition LE (n : nat) : Prop := forall amb st sg st' sg' bs s mu C o mu' T,
+  lift_stmt (ctor_ok_N N) (ctor_ok_real N) false amb st sg = Some (st', sg', bs) -> incl bs BS ->
   (forall z, In z (stmt_targets st) -> In z V) ->
   exec N P n s mu C st = ROk (o, mu') -> LInv s T ->
   exists o', XS N P T mu C st' (o', mu') /\ orelL T o o'.
 
-Definition LB (n : nat) : Prop := forall b sg b' sg' bs s mu C o mu' T,
-  lift_block (ctor_ok_N N) (ctor_ok_real N) false b sg = Some (b', sg', bs) -> incl bs BS ->
+Definition LB (n : nat) : Prop := forall amb b sg b' sg' bs s mu C o mu' T,
+  lift_block (ctor_ok_N N) (ctor_ok_real N) false amb b sg = Some (b', sg', bs) -> incl bs BS ->
   (forall z, In z (block_targets b) -> In z V) ->
   exec_block N P n s mu C b = ROk (o, mu') -> LInv s T ->
   exists o', XB N P T mu C b' (o', mu') /\ orelL T o o'.
 
-Definition LF (n : nat) : Prop := forall body sg body' sg' bs p l i s mu C o mu' T,
-  lift_block (ctor_ok_N N) (ctor_ok_real N) false body sg = Some (body', sg', bs) -> incl bs BS ->
+Definition LF (n : nat) : Prop := forall amb body sg body' sg' bs p l i s mu C o mu' T,
+  lift_block (ctor_ok_N N) (ctor_ok_real N) false amb body sg = Some (body', sg', bs) -> incl bs BS ->
   (forall z, In z (block_targets body) -> In z V) -> (forall z, In z (pat_vars p) -> In z V) ->
   for_loop N P n s mu C p l i body = ROk (o, mu') -> LInv s T ->
   exists o', XF N P T mu C p l i body' (o', mu') /\ orelL T o o'.
@@ -174,14 +181,17 @@ Proof. intros A a b c H x Hx. apply H, in_or_app. auto. Qed.
 
 Lemma LE_step : forall n, LE n -> LB n -> LF n -> LE (S n).
 Proof.
-  intros n IHe IHb IHf st sg st' sg' bs s mu C o mu' T Hl Hi HW H HI.
+  intros n IHe IHb IHf amb st sg st' sg' bs s mu C o mu' T Hl Hi HW H HI.
   destruct st; cbn [lift_stmt] in Hl.
   - (* SAssign *)
-    destruct (lift_pos (ctor_ok_N N) (ctor_ok_real N) false false e sg) as [[[e' sg1] b1]|] eqn:Ep; [|discriminate].
+    destruct (if amb then lift_pos (ctor_ok_N N) (ctor_ok_real N) false false e sg else keep_pos e sg) as [[[e' sg1] b1]|] eqn:Ep; [|discriminate].
     inversion Hl; subst st' sg' bs. clear Hl.
     simpl in H. bstep. destruct (bind_pat p v s) as [s1|] eqn:Eb; [|discriminate].
     cbn [lift rbind] in H. inversion H; subst o mu'. clear H.
-    pose proof (lift_pos_eval _ _ _ _ _ _ _ _ _ _ _ _ _ Ep Hi E HI) as Hx.
+    assert (Hx : XE N P T mu C e' (v, s0)).
+    { destruct amb.
+      - eapply lift_pos_eval; eauto.
+      - destruct (keep_pos_inv _ _ _ _ _ Ep) as [-> _]. eapply lift_other_eval; eauto. }
     destruct HI as (HR & Hd & HB).
     destruct (bind_pat_sim idr inj_idr _ _ _ _ _ Eb HR) as (T1 & Eb' & HR1 & K1).
     rewrite ren_pat_id in Eb'. unfold idr in K1. rewrite map_id in K1.
@@ -192,43 +202,43 @@ Proof.
     destruct (forallb lift_other idx && lift_other e); [|discriminate]. inversion Hl; subst. eapply lift_leaf; eauto.
   - (* SIf1 *)
     destruct (lift_other c); [|discriminate].
-    destruct (lb_gen (lift_stmt (ctor_ok_N N) (ctor_ok_real N) false) body sg) as [[[body' sg1] b1]|] eqn:Eb; [|discriminate].
+    destruct (lb_gen (lift_stmt (ctor_ok_N N) (ctor_ok_real N) false amb) body sg) as [[[body' sg1] b1]|] eqn:Eb; [|discriminate].
     inversion Hl; subst st' sg' bs. clear Hl.
     simpl in H. repeat bstep. destruct v; try discriminate. cbn in E0. inversion E0; subst a. clear E0.
     pose proof (lift_other_eval _ _ _ _ _ _ _ _ E HI) as Hc.
     destruct b.
-    + destruct (IHb body sg body' sg1 b1 s s0 C o mu' T Eb Hi HW H HI) as (o' & Hx & Ho).
+    + destruct (IHb amb body sg body' sg1 b1 s s0 C o mu' T Eb Hi HW H HI) as (o' & Hx & Ho).
       exists o'. split; [|exact Ho]. eapply XS_if1_true; eauto.
     + inversion H; subst. exists (ONormal T). split; [apply XS_if1_false; exact Hc|].
       destruct HI as (HR & Hd & _). cbn. repeat split; auto; try apply keepsV_refl.
   - (* SIf *)
     destruct (lift_other c); [|discriminate].
-    destruct (lb_gen (lift_stmt (ctor_ok_N N) (ctor_ok_real N) false) ift sg) as [[[b1' sg1] l1]|] eqn:Eb1; [|discriminate].
-    destruct (lb_gen (lift_stmt (ctor_ok_N N) (ctor_ok_real N) false) iff sg1) as [[[b2' sg2] l2]|] eqn:Eb2; [|discriminate].
+    destruct (lb_gen (lift_stmt (ctor_ok_N N) (ctor_ok_real N) false amb) ift sg) as [[[b1' sg1] l1]|] eqn:Eb1; [|discriminate].
+    destruct (lb_gen (lift_stmt (ctor_ok_N N) (ctor_ok_real N) false amb) iff sg1) as [[[b2' sg2] l2]|] eqn:Eb2; [|discriminate].
     inversion Hl; subst st' sg' bs. clear Hl.
     simpl in H. repeat bstep. destruct v; try discriminate. cbn in E0. inversion E0; subst a. clear E0.
     pose proof (lift_other_eval _ _ _ _ _ _ _ _ E HI) as Hc.
     assert (HW1 : forall z, In z (block_targets ift) -> In z V) by (intros z Hz; apply HW; cbn; apply in_or_app; auto).
     assert (HW2 : forall z, In z (block_targets iff) -> In z V) by (intros z Hz; apply HW; cbn; apply in_or_app; auto).
     destruct b.
-    + destruct (IHb ift sg b1' sg1 l1 s s0 C o mu' T Eb1 (incl_app_l _ _ _ _ Hi) HW1 H HI) as (o' & Hx & Ho).
+    + destruct (IHb amb ift sg b1' sg1 l1 s s0 C o mu' T Eb1 (incl_app_l _ _ _ _ Hi) HW1 H HI) as (o' & Hx & Ho).
       exists o'. split; [|exact Ho]. eapply XS_if with (t := true); eauto.
-    + destruct (IHb iff sg1 b2' sg2 l2 s s0 C o mu' T Eb2 (incl_app_r _ _ _ _ Hi) HW2 H HI) as (o' & Hx & Ho).
+    + destruct (IHb amb iff sg1 b2' sg2 l2 s s0 C o mu' T Eb2 (incl_app_r _ _ _ _ Hi) HW2 H HI) as (o' & Hx & Ho).
       exists o'. split; [|exact Ho]. eapply XS_if with (t := false); eauto.
   - (* SWhile *)
     destruct (lift_other c) eqn:Elo; [|discriminate].
-    destruct (lb_gen (lift_stmt (ctor_ok_N N) (ctor_ok_real N) false) body sg) as [[[body' sg1] b1]|] eqn:Eb; [|discriminate].
+    destruct (lb_gen (lift_stmt (ctor_ok_N N) (ctor_ok_real N) false amb) body sg) as [[[body' sg1] b1]|] eqn:Eb; [|discriminate].
     inversion Hl; subst st' sg' bs. clear Hl.
-    assert (Hl0 : lift_stmt (ctor_ok_N N) (ctor_ok_real N) false (SWhile c body) sg = Some (SWhile c body', sg1, b1))
+    assert (Hl0 : lift_stmt (ctor_ok_N N) (ctor_ok_real N) false amb (SWhile c body) sg = Some (SWhile c body', sg1, b1))
       by (cbn [lift_stmt]; rewrite Elo, Eb; reflexivity).
     simpl in H. repeat bstep. destruct v; try discriminate. cbn in E0. inversion E0; subst a. clear E0.
     pose proof (lift_other_eval _ _ _ _ _ _ _ _ E HI) as Hc.
     destruct b.
     + bstep.
-      destruct (IHb body sg body' sg1 b1 s s0 C o0 s1 T Eb Hi HW E0 HI) as (o1 & Hx & Ho).
+      destruct (IHb amb body sg body' sg1 b1 s s0 C o0 s1 T Eb Hi HW E0 HI) as (o1 & Hx & Ho).
       destruct o0 as [sw|vw], o1 as [Tw|vw']; cbn in Ho; try contradiction.
       * pose proof (LInv_next _ _ _ _ HI Ho) as HI1.
-        destruct (IHe (SWhile c body) sg _ sg1 b1 sw s1 C o mu' Tw Hl0 Hi HW H HI1) as (o2 & Hx2 & Ho2).
+        destruct (IHe amb (SWhile c body) sg _ sg1 b1 sw s1 C o mu' Tw Hl0 Hi HW H HI1) as (o2 & Hx2 & Ho2).
         exists o2. split; [eapply XS_while_step; eauto|].
         eapply orelL_trans; [|exact Ho2]. apply Ho.
       * subst vw'. inversion H; subst. exists (OReturn vw). split; [eapply XS_while_ret; eauto|reflexivity].
@@ -236,17 +246,17 @@ Proof.
       destruct HI as (HR & Hd & _). cbn. repeat split; auto; try apply keepsV_refl.
   - (* SFor *)
     destruct (lift_other it); [|discriminate].
-    destruct (lb_gen (lift_stmt (ctor_ok_N N) (ctor_ok_real N) false) body sg) as [[[body' sg1] b1]|] eqn:Eb; [|discriminate].
+    destruct (lb_gen (lift_stmt (ctor_ok_N N) (ctor_ok_real N) false amb) body sg) as [[[body' sg1] b1]|] eqn:Eb; [|discriminate].
     inversion Hl; subst st' sg' bs. clear Hl.
     simpl in H. repeat bstep.
     pose proof (lift_other_eval _ _ _ _ _ _ _ _ E HI) as Hc.
     assert (HW1 : forall z, In z (block_targets body) -> In z V) by (intros z Hz; apply HW; cbn; apply in_or_app; auto).
     assert (HW2 : forall z, In z (pat_vars p) -> In z V) by (intros z Hz; apply HW; cbn; apply in_or_app; auto).
-    destruct (IHf body sg body' sg1 b1 p l 0%nat s s0 C o mu' T Eb Hi HW1 HW2 H HI) as (o' & Hx & Ho).
+    destruct (IHf amb body sg body' sg1 b1 p l 0%nat s s0 C o mu' T Eb Hi HW1 HW2 H HI) as (o' & Hx & Ho).
     exists o'. split; [|exact Ho]. eapply XS_for; eauto.
   - (* SContext *)
     destruct (lift_pos (ctor_ok_N N) (ctor_ok_real N) false true e sg) as [[[e' sg1] l1]|] eqn:Ep; [|discriminate].
-    destruct (lb_gen (lift_stmt (ctor_ok_N N) (ctor_ok_real N) false) body sg1) as [[[body' sg2] l2]|] eqn:Eb; [|discriminate].
+    destruct (lb_gen (lift_stmt (ctor_ok_N N) (ctor_ok_real N) false (static_hdr (ctor_ok_N N) (ctor_ok_real N) false e)) body sg1) as [[[body' sg2] l2]|] eqn:Eb; [|discriminate].
     inversion Hl; subst st' sg' bs. clear Hl.
     simpl in H. bstep. destruct v; try discriminate.
     pose proof (lift_pos_eval _ _ _ _ _ _ _ _ _ _ _ _ _ Ep (incl_app_l _ _ _ _ Hi) E HI) as Hc.
@@ -263,7 +273,7 @@ Proof.
         intro; subst z. apply Hz, HW. cbn. left. reflexivity.
       - intros y ey Hin. destruct (HB _ _ Hin) as (cy & Hs & Hg). exists cy. split; [exact Hs|].
         rewrite env_get_set_other; [exact Hg|]. intro; subst y. apply (HBS _ _ Hin), HW. cbn. left. reflexivity. }
-    destruct (IHb body sg1 body' sg2 l2 s' s0 c o mu' T' Eb (incl_app_r _ _ _ _ Hi) HW1 H HI1) as (o' & Hx & Ho).
+    destruct (IHb _ body sg1 body' sg2 l2 s' s0 c o mu' T' Eb (incl_app_r _ _ _ _ Hi) HW1 H HI1) as (o' & Hx & Ho).
     exists o'. split; [eapply XS_context; eauto|]. eapply orelL_trans; eauto.
   - destruct (lift_other e); [|discriminate]. inversion Hl; subst. eapply lift_leaf; eauto.
   - destruct (lift_other e); [|discriminate]. inversion Hl; subst. eapply lift_leaf; eauto.
@@ -273,28 +283,28 @@ Qed.
 
 Lemma LB_step : forall n, LE n -> LB n -> LB (S n).
 Proof.
-  intros n IHe IHb b sg b' sg' bs s mu C o mu' T Hl Hi HW H HI.
+  intros n IHe IHb amb b sg b' sg' bs s mu C o mu' T Hl Hi HW H HI.
   destruct b as [|st b].
   - cbn in Hl. inversion Hl; subst. rewrite exec_block_nil in H. inversion H; subst.
     exists (ONormal T). split; [apply XB_nil|]. destruct HI as (HR & Hd & _). cbn. repeat split; auto; try apply keepsV_refl.
   - unfold lift_block in Hl. cbn [lb_gen] in Hl.
-    destruct (lift_stmt (ctor_ok_N N) (ctor_ok_real N) false st sg) as [[[st' sg1] b1]|] eqn:E1; [|discriminate].
-    destruct (lb_gen (lift_stmt (ctor_ok_N N) (ctor_ok_real N) false) b sg1) as [[[r' sg2] b2]|] eqn:E2; [|discriminate].
+    destruct (lift_stmt (ctor_ok_N N) (ctor_ok_real N) false amb st sg) as [[[st' sg1] b1]|] eqn:E1; [|discriminate].
+    destruct (lb_gen (lift_stmt (ctor_ok_N N) (ctor_ok_real N) false amb) b sg1) as [[[r' sg2] b2]|] eqn:E2; [|discriminate].
     inversion Hl; subst b' sg' bs. clear Hl.
     assert (HW1 : forall z, In z (stmt_targets st) -> In z V) by (intros z Hz; apply HW; unfold block_targets; cbn; apply in_or_app; auto).
     assert (HW2 : forall z, In z (block_targets b) -> In z V) by (intros z Hz; apply HW; unfold block_targets; cbn; apply in_or_app; auto).
     rewrite exec_block_cons in H. bstep.
-    destruct (IHe st sg st' sg1 b1 s mu C o0 s0 T E1 (incl_app_l _ _ _ _ Hi) HW1 E HI) as (o1 & Hx & Ho).
+    destruct (IHe amb st sg st' sg1 b1 s mu C o0 s0 T E1 (incl_app_l _ _ _ _ Hi) HW1 E HI) as (o1 & Hx & Ho).
     destruct o0 as [sw|vw], o1 as [Tw|vw']; cbn in Ho; try contradiction.
     + pose proof (LInv_next _ _ _ _ HI Ho) as HI1.
-      destruct (IHb b sg1 r' sg2 b2 sw s0 C o mu' Tw E2 (incl_app_r _ _ _ _ Hi) HW2 H HI1) as (o2 & Hx2 & Ho2).
+      destruct (IHb amb b sg1 r' sg2 b2 sw s0 C o mu' Tw E2 (incl_app_r _ _ _ _ Hi) HW2 H HI1) as (o2 & Hx2 & Ho2).
       exists o2. split; [eapply XB_cons_normal; eauto|]. eapply orelL_trans; [|exact Ho2]. apply Ho.
     + subst vw'. inversion H; subst. exists (OReturn vw). split; [apply XB_cons_ret; exact Hx|reflexivity].
 Qed.
 
 Lemma LF_step : forall n, LB n -> LF n -> LF (S n).
 Proof.
-  intros n IHb IHf body sg body' sg' bs p l i s mu C o mu' T Hl Hi HW HWp H HI.
+  intros n IHb IHf amb body sg body' sg' bs p l i s mu C o mu' T Hl Hi HW HWp H HI.
   simpl in H. unfold for_loop_body in H.
   destruct (store_get mu l) as [vs|] eqn:Eg; [|discriminate].
   destruct (nth_error vs i) as [x|] eqn:En.
@@ -308,10 +318,10 @@ Proof.
   { cbn. split; [exact HR1|]. split; [eapply dom_after; eauto; eapply bind_pat_keeps; eauto|eapply keepsV_of_keeps; eauto]. }
   pose proof (LInv_next _ _ _ _ HI Ho1) as HI1.
   bstep.
-  destruct (IHb body sg body' sg' bs s1 mu C o0 s0 T1 Hl Hi HW E HI1) as (o1 & Hx & Ho).
+  destruct (IHb amb body sg body' sg' bs s1 mu C o0 s0 T1 Hl Hi HW E HI1) as (o1 & Hx & Ho).
   destruct o0 as [sw|vw], o1 as [Tw|vw']; cbn in Ho; try contradiction.
   - pose proof (LInv_next _ _ _ _ HI1 Ho) as HI2.
-    destruct (IHf body sg body' sg' bs p l (S i) sw s0 C o mu' Tw Hl Hi HW HWp H HI2) as (o2 & Hx2 & Ho2).
+    destruct (IHf amb body sg body' sg' bs p l (S i) sw s0 C o mu' Tw Hl Hi HW HWp H HI2) as (o2 & Hx2 & Ho2).
     exists o2. split; [eapply XF_step; eauto|].
     eapply orelL_trans; [apply Ho1|]. eapply orelL_trans; [|exact Ho2]. apply Ho.
   - subst vw'. inversion H; subst. exists (OReturn vw). split; [eapply XF_step_ret; eauto|reflexivity].
@@ -326,19 +336,21 @@ Qed.
 
 End Ctx.
 
-(* the prelude binds every lifted name to the context its expression denotes *)
-Lemma prelude_lift_run : forall bs T mu C,
+(* the prelude binds every lifted name to the context its expression denotes (with or without the
+   proposed repair: for a literal constructor the expression and its static value coincide) *)
+Lemma prelude_lift_run : forall fx bs T mu C,
   (forall x e, In (x, e) bs -> liftable (ctor_ok_N N) (ctor_ok_real N) false true e = true) -> NoDup (map fst bs) ->
-  exists T0, XB N P T mu C (lift_prelude bs) (ONormal T0, mu) /\ keeps (map fst bs) T T0 /\
+  exists T0, XB N P T mu C (lift_prelude fx (static_val N) bs) (ONormal T0, mu) /\ keeps (map fst bs) T T0 /\
     (forall x e, In (x, e) bs -> exists c, static_ctx N e = Some c /\ env_get T0 x = Some (VCtx c)).
 Proof.
-  induction bs as [|[x e] bs IH]; intros T mu C Hl Hnd.
+  intros fx. induction bs as [|[x e] bs IH]; intros T mu C Hl Hnd.
   - exists T. split; [apply XB_nil|]. split; [apply keeps_refl|]. intros ? ? [].
   - destruct (liftable_eval _ _ (Hl x e (or_introl eq_refl))) as (c & Hs & Hx & _).
     inversion Hnd; subst.
     destruct (IH (env_set T x (VCtx c)) mu C (fun y ey Hy => Hl y ey (or_intror Hy)) H2) as (T0 & Hb & K & Hall).
     exists T0. split; [|split].
-    + cbn [lift_prelude map fst snd]. eapply XB_cons_normal; [|exact Hb]. eapply XS_assign; [apply Hx|reflexivity].
+    + cbn [lift_prelude map fst snd]. eapply XB_cons_normal; [|exact Hb]. eapply XS_assign; [|reflexivity].
+      unfold bound_expr, static_val. destruct fx; [|apply Hx]. rewrite Hs. exists 1%nat. reflexivity.
     + cbn [map fst]. change (x :: map fst bs) with ([x] ++ map fst bs). eapply keeps_trans; [apply keeps_set|exact K].
     + intros y ey [Heq|Hin].
       * inversion Heq; subst y ey. exists c. split; [exact Hs|]. rewrite K; [apply env_get_set_same|exact H1].
@@ -352,10 +364,10 @@ Proof.
   - apply andb_prop in H. destruct H as [_ H]. auto.
 Qed.
 
-Theorem lift_ctx_call_sim : forall fn fn', lift_ctx_lit N fn = Some fn' -> call_sim N P fn fn'.
+Theorem lift_ctx_call_sim : forall fx fn fn', lift_ctx_lit_x N fx fn = Some fn' -> call_sim N P fn fn'.
 Proof.
-  intros fn fn' Hl. unfold lift_ctx_lit, lift_fn in Hl.
-  destruct (lift_block (ctor_ok_N N) (ctor_ok_real N) false (f_body fn) (ist0 fn)) as [[[body' sg] bs]|] eqn:Eb; [|discriminate].
+  intros fx fn fn' Hl. unfold lift_ctx_lit_x, lift_fn in Hl.
+  destruct (lift_block (ctor_ok_N N) (ctor_ok_real N) false (match f_ctx fn with Some _ => true | None => false end) (f_body fn) (ist0 fn)) as [[[body' sg] bs]|] eqn:Eb; [|discriminate].
   match type of Hl with (if ?c then _ else _) = _ => destruct c eqn:Ec; [|discriminate] end.
   inversion Hl; subst fn'. clear Hl.
   apply andb_prop in Ec. destruct Ec as [Ec1 Ec2]. rewrite forallb_forall in Ec1.
@@ -371,7 +383,7 @@ Proof.
   set (C' := match f_ctx fn with Some c => c | None => C end) in *.
   destruct (exec_block N P n s0 mu C' (f_body fn)) as [[o mu1]| |] eqn:Ex; try discriminate.
   cbn [rbind] in Hcall. destruct o as [s1|v]; [discriminate|]. inversion Hcall; subst r. clear Hcall.
-  destruct (prelude_lift_run bs s0 mu C' Hlift (nodupb_NoDup _ Ec2)) as (T0 & Hpre & K0 & Hall).
+  destruct (prelude_lift_run fx bs s0 mu C' Hlift (nodupb_NoDup _ Ec2)) as (T0 & Hpre & K0 & Hall).
   assert (Hd0 : forall z, ~ In z V -> env_get s0 z = None).
   { intros z Hz. rewrite (bind_params_dom _ _ _ _ Ebp); [reflexivity|].
     intro Hin. apply Hz. unfold V, func_names. apply in_or_app. left. exact Hin. }
@@ -382,7 +394,7 @@ Proof.
     rewrite (Hd0 _ Hv) in Hx. discriminate. }
   assert (HW : forall z, In z (block_targets (f_body fn)) -> In z V).
   { intros z Hz. unfold V, func_names. apply in_or_app. right. apply block_targets_names. exact Hz. }
-  destruct (proj1 (proj2 (L_all V bs Hfresh n)) _ _ _ _ _ _ _ _ _ _ _ Eb (incl_refl _) HW Ex HI) as (o' & Hx & Ho).
+  destruct (proj1 (proj2 (L_all V bs Hfresh n)) _ _ _ _ _ _ _ _ _ _ _ _ Eb (incl_refl _) HW Ex HI) as (o' & Hx & Ho).
   destruct o' as [T'|v']; cbn in Ho; [contradiction|]. subst v'.
   destruct (XB_app N P _ _ _ _ _ _ _ _ Hpre Hx) as [m Hm].
   exists (S m). rewrite call_unfold. cbn [f_params f_ctx f_body]. rewrite Ebp. cbn [lift rbind].
@@ -391,10 +403,16 @@ Qed.
 
 End LiftP.
 
+Theorem lift_ctx_x_sound : forall N P fx f fn fn' f',
+  lookup_fn P f = Some fn -> lookup_fn P f' = None -> lift_ctx_lit_x N fx fn = Some fn' ->
+  forall n args c v, run N P n f args c = ROk v ->
+  exists m, run N (P ++ [(f', fn')]) m f' args c = ROk v.
+Proof.
+  intros N P fx f fn fn' f' Hl Hn Hf. eapply call_sim_run; eauto. eapply lift_ctx_call_sim; eauto.
+Qed.
+
 Theorem lift_ctx_sound : forall N P f fn fn' f',
   lookup_fn P f = Some fn -> lookup_fn P f' = None -> lift_ctx_lit N fn = Some fn' ->
   forall n args c v, run N P n f args c = ROk v ->
   exists m, run N (P ++ [(f', fn')]) m f' args c = ROk v.
-Proof.
-  intros N P f fn fn' f' Hl Hn Hf. eapply call_sim_run; eauto. eapply lift_ctx_call_sim; eauto.
-Qed.
+Proof. intros N P. apply (lift_ctx_x_sound N P false). Qed.
